@@ -222,6 +222,9 @@ class FunctionRun:
             if p not in c.types:
                 raise Unsupported('parameter %s has no declared type' % p)
             st.env[p] = const(parse_type(c.types[p]), p)
+        for p, value in c.fix.items():
+            st.assume(ops.equal(st.env[p], lift(value)))
+            st.env[p] = lift(value)
         for v in list(st.env.values()):
             st.assume(*ops.wf_axioms(v))
         # heap: every graph reachable from the inputs is older than everything allocated here
@@ -494,6 +497,49 @@ class FunctionRun:
                     names.add(node.name)
         return names
 
+    HEAP_MUTATORS = {'add_node', 'add_edge', 'add_nodes_from', 'add_edges_from', 'remove_node', 'remove_edge',
+                     'remove_nodes_from', 'clear'}
+    HEAP_CANON = {'networkx.Graph', 'networkx.set_node_attributes', 'networkx.relabel_nodes', 'networkx.contracted_nodes',
+                  'networkx.set_edge_attributes'}
+
+    def _touches_heap(self, stmts):
+        """Conservative syntactic test: may these statements write the graph heap?"""
+        def mentions_graph_view(e):
+            return any(isinstance(n, ast.Attribute) and n.attr in ('nodes', 'edges') for n in ast.walk(e))
+        for s in stmts:
+            for node in ast.walk(s):
+                if isinstance(node, (ast.Assign, ast.AugAssign, ast.Delete)):
+                    tgts = node.targets if isinstance(node, (ast.Assign, ast.Delete)) else [node.target]
+                    for t in tgts:
+                        if isinstance(t, ast.Subscript) and mentions_graph_view(t):
+                            return True
+                if isinstance(node, ast.Call):
+                    f = node.func
+                    if isinstance(f, ast.Attribute):
+                        if f.attr in self.HEAP_MUTATORS:
+                            return True
+                        if f.attr in ('append', 'remove', 'pop', 'extend', 'insert', 'update') and mentions_graph_view(f.value):
+                            return True
+                        if isinstance(f.value, ast.Name) and f.value.id == 'self':
+                            cls = self.c.qualname.split('.')[0]
+                            con = C.lookup('%s:%s.%s' % (self.c.module, cls, f.attr))
+                            if con is None or con.modifies or con.allocates or con.rebinds:
+                                return True
+                        if isinstance(f.value, ast.Name) and f.value.id in self.mod.imports and ':' not in self.mod.imports[f.value.id]:
+                            canon = self.mod.imports[f.value.id] + '.' + f.attr
+                            if canon in self.HEAP_CANON:
+                                return True
+                            con = C.lookup(canon)
+                            if con is not None and (con.modifies or con.allocates):
+                                return True
+                    elif isinstance(f, ast.Name) and f.id in self.mod.imports:
+                        con = C.lookup(self.mod.imports[f.id])
+                        if con is not None and (con.modifies or con.allocates):
+                            return True
+                        if con is None and ':' in self.mod.imports[f.id] and self.mod.imports[f.id].split(':')[0].startswith('cgsmiles'):
+                            return True      # uncontracted repo function: assume the worst
+        return False
+
     def _havoc(self, st, names, loop_mod_terms, entry_heap):
         for n in sorted(names):
             if n in st.env and isinstance(st.env[n], Val):
@@ -508,7 +554,8 @@ class FunctionRun:
                 nv = fresh(parse_type(self.c.locals[n]), n)
                 st.env[n] = nv
                 st.assume(*ops.wf_axioms(nv))
-        self._havoc_heap(st, loop_mod_terms, entry_heap)
+        if loop_mod_terms is not None:
+            self._havoc_heap(st, loop_mod_terms, entry_heap)
 
     def _havoc_heap(self, st, mod_terms, before, fresh_from=None):
         """Replace the heap by an arbitrary one that agrees with `before` on every graph outside the frame."""
@@ -557,7 +604,7 @@ class FunctionRun:
             self.oblige(st, 'inv-init', self.spec_bool(e, st, self.entry), s, 'L%d.%d' % (k, j), detail=e)
         # 2. arbitrary iteration
         names = self._assigned_names(s.body) | self._assigned_names([ast.Assign(targets=[s.target], value=ast.Constant(0))])
-        mods = self._loop_mods(spec, st)
+        mods = self._loop_mods(spec, st) if self._touches_heap(s.body) else None
         head = st.copy()
         self._havoc(head, names, mods, st.heap)
         i = z3.Int(fresh_name(ghost))
@@ -568,7 +615,7 @@ class FunctionRun:
         # 2a. one more iteration
         body = head.copy()
         body.assume(i < seq.length)
-        if spec is not None and spec.modifies is not None:
+        if spec is not None and spec.modifies is not None and mods is not None:
             body.writable = self._writable_pred(mods, st.heap.get('next_gid'))
         self.assign(s.target, seq.getter(i), body, s)
         outs = []
@@ -613,7 +660,7 @@ class FunctionRun:
         for j, e in enumerate(inv):
             self.oblige(st, 'inv-init', self.spec_bool(e, st, self.entry), s, 'L%d.%d' % (k, j), detail=e)
         names = self._assigned_names(s.body)
-        mods = self._loop_mods(spec, st)
+        mods = self._loop_mods(spec, st) if self._touches_heap(s.body) else None
         head = st.copy()
         self._havoc(head, names, mods, st.heap)
         i = z3.Int(fresh_name(ghost))
